@@ -34,6 +34,7 @@ pub(crate) fn validate_ast(compilation_state: &mut CompilationState) {
 
     // Check for any cyclic data structures. If any exist, exit early to avoid infinite loops during validation.
     cycle_detection::detect_cycles(&compilation_state.ast, diagnostics);
+    cycle_detection::detect_inheritance_cycles(&compilation_state.ast, diagnostics);
     if diagnostics.has_errors() {
         return;
     }
